@@ -109,10 +109,12 @@ class Cylinder(SampleShape):
         )
         # By default the cylinder quadrature has z as the symmetry axis.
         # We need to rotate the quadrature to match the symmetry axis of the cylinder.
-        u = sc.cross(sc.vector([0, 0, 1]), self.symmetry_line)
+        ez = sc.vector([0, 0, 1])
+        u = sc.cross(ez, self.symmetry_line)
         un = sc.norm(u)
         if un >= 1e-10:
-            u *= sc.asin(un) / un
+            # atan2, not asin(un): the angle exceeds pi/2 for an axis with negative z
+            u *= sc.atan2(y=un, x=sc.dot(ez, self.symmetry_line)) / un
             points = sc.spatial.rotations_from_rotvecs(u) * points
 
         # By default the cylinder quadrature center is at the origin.
